@@ -14,16 +14,17 @@
   The plain DISCONNECT is C13 `c13_plain_disconnect`.
 -/
 import Bisquitt.Lemmas.GwSt
+import Bisquitt.Lemmas.GwEmits
 import Bisquitt.Spec.Gateway
 
 namespace Bisquitt.Gw
 open Bisquitt Gw
 
-@[simp] theorem finishTx_now (g : Gw) (id : Nat) : (g.finishTx id).now = g.now := by
-  unfold finishTx; split <;> (try split) <;> (try unfold runFinally) <;> (try split) <;> rfl
+@[simp] theorem runFinally_now (g : Gw) (t : Tx) : (g.runFinally t).now = g.now := by
+  unfold runFinally; split <;> (try split) <;> rfl
 
-@[simp] theorem finishTx_outs' (g : Gw) (id : Nat) : (g.finishTx id).outs = g.outs := by
-  unfold finishTx; split <;> (try split) <;> (try unfold runFinally) <;> (try split) <;> rfl
+@[simp] theorem finishTx_now (g : Gw) (id : Nat) : (g.finishTx id).now = g.now := by
+  unfold finishTx; split <;> (try split) <;> simp [setTx]
 
 theorem legal_of_active (g : Gw) (p : Pkt) (h : g.st = .active) : (!g.packetLegal p) = false := by
   unfold packetLegal; simp [h]
